@@ -67,12 +67,12 @@ func genC03(r *Rng) *C03Case {
 	cs := &C03Case{Cfg: genCfg(r, 0.1)}
 	cs.Cfg.apply() // Source() during generation must already use this case's delimiters
 	ne := r.Range(2, 5)
-	hi := 5
+	lo, hi := 0, 5
 	if r.Chance(0.15) {
-		hi = 22 // maps well beyond any small-size special case
+		lo, hi = 16, 24 // maps well beyond any small-size special case
 	}
 	for i := 0; i < ne; i++ {
-		cs.Envs = append(cs.Envs, GenEnv(r.Fork(uint64(100+i)), 0, hi))
+		cs.Envs = append(cs.Envs, GenEnv(r.Fork(uint64(100+i)), lo, hi))
 	}
 	for i := 1; i < ne; i++ {
 		if r.Chance(0.6) {
@@ -102,6 +102,9 @@ func genC03(r *Rng) *C03Case {
 		g := NewGen(r.Fork(uint64(200+i)), r.Range(4, 30))
 		g.focus = focus
 		g.ArrEmphasis = r.Chance(0.7)
+		if lo > 0 {
+			g.ArrEmphasis, g.MapEmphasis = false, true // big maps: iterate them
+		}
 		g.incArgs = incArgs
 		if r.Chance(0.6) {
 			g.feat["cycle"], g.feat["assign"], g.feat["capture"], g.feat["nest"] = true, true, true, true
